@@ -39,7 +39,8 @@ FNS = [kinds.node, kinds.node2, kinds.two, kinds.three, kinds.Base, kinds.Other,
        kinds.target3, kinds.tagged_fn, kinds.DCTagged]
 POS_FNS = [kinds.posnode, kinds.PosInit, sigs.g_ab_c_va, sigs.g_a1_b2_va_k_vk]
 LEAVES = [0, 1, -7, 2.5, 'a', 'a longer string value to make containers big enough', None, True,
-          (1, 2), (), ('x', (3, 4)), kinds.Color.RED, kinds.two, b'b']
+          (1, 2), (), ('x', (3, 4)), kinds.Color.RED, kinds.two, b'b',
+          (0.0, float('inf')), (float('-inf'), 2)]
 
 
 def plan(tier):
